@@ -239,3 +239,182 @@ Proof.
   rewrite E. destruct (save_symbols_nodup _ _ _ _ Hsave ltac:(constructor)) as [Hn He]. cbn [map app] in He.
   now rewrite <- He.
 Qed.
+
+(* ====================================================================================================== *)
+(* the image loads at its origin (last sentence of the property; repair F45)                               *)
+(* ====================================================================================================== *)
+From V.proofs Require Import PContig.
+
+(* every statement's instruction is a row of the (regenerated) table *)
+Definition in_table (s : stmt) : Prop := In (s_instr s) Tables.instructions.
+
+Lemma parse_line_instr line st : parse_line line = Ok (Some st) -> in_table st.
+Proof.
+  unfold parse_line, in_table. intros H.
+  destruct (mem_c 10 _); [discriminate|]. destruct (all_c is_space line); [discriminate|].
+  destruct (hd 0 (lstrip line) =? 59); [discriminate|].
+  destruct (span is_labelch line) as [label r1]. destruct r1 as [|c1 r1']; [discriminate|].
+  destruct (negb (is_space c1)); [discriminate|].
+  destruct (span is_word _) as [mn r3]. destruct r3 as [|c2 r3']; [discriminate|].
+  destruct (negb (is_space c2)); [discriminate|].
+  destruct (find_instr (upper_t mn) Tables.instructions) as [j|] eqn:Ef; [|discriminate].
+  apply find_instr_In in Ef.
+  destruct (Tables.is_string_define j).
+  - destruct (rstrip _) as [|d rest]; [discriminate|]. destruct (find_from d rest 1); [|discriminate].
+    destruct (create_operand _ j); try discriminate. inversion H; subst. exact Ef.
+  - destruct (span is_opch _) as [ops rest]. apply bind_ok in H as [o [_ H]]. inversion H; subst. exact Ef.
+Qed.
+
+Lemma parse_lines_instr : forall lines ss, parse_lines lines = Ok ss -> Forall in_table ss.
+Proof.
+  induction lines as [|l r IH]; intros ss H; cbn [parse_lines] in H; [inversion H; constructor|].
+  apply bind_ok in H as [s [Hs H]]. apply bind_ok in H as [rest [Hr H]]. inversion H; subst.
+  destruct s as [st|]; [constructor; [eapply parse_line_instr; eauto | now apply IH] | now apply IH].
+Qed.
+
+Lemma expand_list_instr rec fm chain :
+  (forall c inner r, Forall in_table inner -> rec c inner = Ok r -> Forall in_table r) ->
+  forall ss r, Forall in_table ss -> expand_list rec fm chain ss = Ok r -> Forall in_table r.
+Proof.
+  intros Hrec. induction ss as [|s ss IH]; intros r Hin H; cbn [expand_list] in H; [inversion H; constructor|].
+  inversion Hin as [|? ? Hs Hss]; subst. destruct (_ && _).
+  - destruct (existsb (text_eqb (s_opstr s)) chain); [discriminate|]. destruct (lookup_file (s_opstr s) fm) as [ls|]; [|discriminate].
+    apply bind_ok in H as [inner [Hp H]]. apply bind_ok in H as [inner' [Hr H]]. apply bind_ok in H as [rest [Hrest H]].
+    inversion H; subst. apply Forall_app. split; [eapply Hrec; [|exact Hr]; eapply parse_lines_instr; eauto | now apply IH].
+  - apply bind_ok in H as [rest [Hrest H]]. inversion H; subst. constructor; [exact Hs | now apply IH].
+Qed.
+
+Lemma expand_instr fm : forall fuel chain ss r, Forall in_table ss -> expand fuel fm chain ss = Ok r -> Forall in_table r.
+Proof.
+  induction fuel as [|f IH]; intros chain ss r Hin H; cbn [expand] in H.
+  - eapply expand_list_instr; [|exact Hin|exact H]. intros; discriminate.
+  - eapply expand_list_instr; [|exact Hin|exact H]. intros c inner r0 Hi Hr. eapply IH; eauto.
+Qed.
+
+(* what the table says about ORG (checked on the regenerated table) *)
+Definition opt_none (o : option N) : bool := match o with None => true | Some _ => false end.
+Definition org_row_ok (i : irow) : bool :=
+  if Tables.is_origin i then
+    text_eqb (mnem i) ORG_t && opt_none (Tables.inh i) && opt_none (Tables.imm i) && opt_none (Tables.dir i) &&
+    opt_none (Tables.ind i) && opt_none (Tables.ext i) && opt_none (Tables.rel i)
+  else negb (text_eqb (mnem i) ORG_t).
+
+Lemma org_rows : forallb org_row_ok Tables.instructions = true.
+Proof. vm_compute. reflexivity. Qed.
+
+Lemma org_row_of s : in_table s -> org_row_ok (s_instr s) = true.
+Proof. intros H. pose proof org_rows as Hall. rewrite forallb_forall in Hall. now apply Hall. Qed.
+
+Lemma opt_none_eq o : opt_none o = true -> o = None. Proof. destruct o; [discriminate | reflexivity]. Qed.
+
+(* an ORG statement reserves nothing and its size is decided at once *)
+Lemma translate_operand_org o i p : Tables.is_origin i = true -> org_row_ok i = true ->
+  translate_operand o i = Ok p -> cp_size p = 0 /\ cp_needs p = false /\ cp_choices p = [].
+Proof.
+  intros Ho Hrow H. unfold org_row_ok in Hrow. rewrite Ho in Hrow.
+  repeat (apply andb_true_iff in Hrow as [Hrow ?]).
+  repeat match goal with Hx : opt_none _ = true |- _ => apply opt_none_eq in Hx end.
+  assert (Em : mnem i = ORG_t) by (apply list_eqb_eq; exact Hrow).
+  destruct o; cbn [translate_operand] in H; unfold opt_op in H;
+    repeat match goal with Hx : _ = None |- _ => rewrite Hx in H end; try discriminate.
+  all: try (destruct v; discriminate).
+  all: try (inversion H; subst; cbn; auto; fail).
+  all: try (unfold translate_indexed, opt_op in H; match goal with Hx : Tables.ind _ = None |- _ => rewrite Hx in H end; discriminate).
+  all: try (unfold translate_special in H; destruct (if is_pshpul _ then _ else _); try discriminate;
+            cbn [bind] in H; match goal with Hx : Tables.imm _ = None |- _ => rewrite Hx in H end; discriminate).
+  (* OPseudo: the ORG branch of translate_pseudo *)
+  unfold translate_pseudo in H. rewrite Em in H.
+  change (text_eqb ORG_t FCB_t) with false in H. change (text_eqb ORG_t FDB_t) with false in H.
+  change (text_eqb ORG_t RMB_t) with false in H. change (text_eqb ORG_t ORG_t) with true in H. cbv iota in H.
+  inversion H; subst. cbn. auto.
+Qed.
+
+Lemma translate_stmt_wf_org s s' : in_table s -> translate_stmt s = Ok s' ->
+  wf_org s' /\ (Tables.is_origin (s_instr s') = true -> s_fixed s' = true).
+Proof.
+  intros Hin H. pose proof (org_row_of s Hin) as Hrow. destruct (translate_stmt_own _ _ H) as (Ei & _ & Hown).
+  unfold translate_stmt in H. apply bind_ok in H as [p [Hp H]]. apply as_te_ok in Hp. inversion H; subst s'. cbn [s_instr] in *.
+  unfold wf_org, sz. cbn [s_instr s_pkg s_fixed]. destruct (Tables.is_origin (s_instr s)) eqn:Eo.
+  - destruct (translate_operand_org _ _ _ Eo Hrow Hp) as (H1 & H2 & H3). rewrite H2, H3. cbn.
+    split; [split; [auto | discriminate] | auto].
+  - split; [split; [discriminate|] | discriminate]. intros _.
+    unfold org_row_ok in Hrow. rewrite Eo in Hrow. apply negb_true_iff in Hrow.
+    specialize (Hown Hrow). unfold has_own_address in Hown. cbn [s_pkg] in Hown. now apply negb_false_iff in Hown.
+Qed.
+
+Lemma map_res_Forall {A B} (f : A -> res B) (P : A -> Prop) (Q : B -> Prop) :
+  (forall a b, P a -> f a = Ok b -> Q b) -> forall l l', Forall P l -> map_res f l = Ok l' -> Forall Q l'.
+Proof.
+  intros Hf. induction l as [|a l IH]; intros l' Hp H; cbn [map_res] in H; [inversion H; constructor|].
+  inversion Hp; subst. apply bind_ok in H as [b [Hb H]]. apply bind_ok in H as [rest [Hr H]]. inversion H; subst.
+  constructor; [eapply Hf; eauto | now apply IH].
+Qed.
+
+Lemma Forall2_Forall {A} (R : A -> A -> Prop) (P Q : A -> Prop) : (forall a b, R a b -> P a -> Q b) ->
+  forall l l', Forall2 R l l' -> Forall P l -> Forall Q l'.
+Proof. intros Hr. induction 1; intros Hp; [constructor|]. inversion Hp; subst. constructor; eauto. Qed.
+
+Lemma sum_range_nil f : forall c from, sum_range f [] from c = 0.
+Proof. induction c as [|c IH]; intros from; cbn [sum_range]; [reflexivity|]. rewrite IH. now destruct from. Qed.
+
+Lemma sum_sizes_bytes : forall ss rs, map_res stmt_result ss = Ok rs ->
+  Forall (fun s => r_size s = N.of_nat (length (r_bytes s))) rs ->
+  forall k, sum_range sz ss 0 k = N.of_nat (length (concat (map r_bytes (firstn k rs)))).
+Proof.
+  induction ss as [|s ss IH]; intros rs H Hsz k; cbn [map_res] in H.
+  - inversion H; subst. rewrite sum_range_nil. now destruct k.
+  - apply bind_ok in H as [r0 [Hr0 H]]. apply bind_ok in H as [rs' [Hrs H]]. inversion H; subst rs. clear H.
+    inversion Hsz as [|? ? Hz Hsz']; subst. destruct k as [|k]; [reflexivity|].
+    cbn [sum_range nth_error firstn map concat]. rewrite sum_range_cons, (IH _ Hrs Hsz' k), app_length.
+    destruct (stmt_result_fields _ _ Hr0) as (_ & Fz & _). unfold sz. fold (size_of_stmt s). rewrite <- Fz, Hz. lia.
+Qed.
+
+Definition origin_value (r : result) : N := oval (r_origin r).
+
+(* THE theorem: loading the image at the reported origin puts the bytes of every statement that has any at the
+   address the listing shows for it.  (size = emitted bytes is property C12's count, stated as a hypothesis.) *)
+Theorem image_loads_at_origin fm lines r :
+  assemble fm lines = Ok r ->
+  Forall (fun s => r_size s = N.of_nat (length (r_bytes s))) (r_stmts r) ->
+  forall k s, nth_error (r_stmts r) k = Some s -> r_bytes s <> [] ->
+    r_addr s = origin_value r + N.of_nat (length (concat (map r_bytes (firstn k (r_stmts r))))).
+Proof.
+  unfold assemble. intros H Hsz. apply bind_ok in H as [parsed [Hparse H]]. apply bind_ok in H as [[ss tb] [Ht H]].
+  apply bind_ok in H as [rs [Hrs H]]. apply bind_ok in H as [syms [_ H]]. inversion H; subst r. clear H.
+  unfold origin_value. cbn [r_stmts r_origin] in *.
+  unfold translate_program in Ht.
+  apply bind_ok in Ht as [ss0 [H0 Ht]]. apply bind_ok in Ht as [tb00 [_ Ht]]. apply bind_ok in Ht as [tb0 [_ Ht]].
+  apply bind_ok in Ht as [ss1 [H1 Ht]]. apply bind_ok in Ht as [ss2 [H2 Ht]].
+  apply bind_ok in Ht as [ss3 [H3 Ht]]. apply bind_ok in Ht as [ss4 [H4 Ht]].
+  apply bind_ok in Ht as [ss5 [H5 Ht]]. apply bind_ok in Ht as [tb' [_ Ht]]. inversion Ht; subst ss tb. clear Ht.
+  (* every instruction is a table row, from parsing to translation *)
+  assert (I0 : Forall in_table ss0) by (eapply expand_instr; [eapply parse_lines_instr; eauto | exact H0]).
+  assert (I1 : Forall in_table ss1).
+  { eapply (map_res_Forall (resolve_stmt tb0) in_table in_table); [|exact I0|exact H1].
+    intros a b Ha Hab. unfold in_table. destruct (resolve_stmt_keeps _ _ _ Hab) as [E _]. now rewrite E. }
+  assert (W2 : Forall (fun s => wf_org s /\ (Tables.is_origin (s_instr s) = true -> s_fixed s = true)) ss2).
+  { eapply (map_res_Forall translate_stmt in_table); [|exact I1|exact H2]. intros a b Ha Hab. eapply translate_stmt_wf_org; eauto. }
+  assert (W3 : Forall wf_org ss3).
+  { eapply (Forall2_Forall rel_size); [|eapply size_loop_rel; eauto|exact W2].
+    intros a b R [[Wo Wn] Wf]. destruct R as (_ & Ei & _ & _ & _ & Ea & _ & _ & _ & Efix).
+    unfold wf_org. rewrite Ei. split.
+    - intros Ho. rewrite (Efix (Wf Ho)). auto.
+    - intros Ho. rewrite Ea. auto. }
+  (* the address pass, then fix_addresses *)
+  pose proof (fix_all_rel _ _ _ _ H5) as R5.
+  intros k s Hk Hne. destruct (map_res_spec _ _ _ Hrs) as [Hl Hm].
+  assert (Hs5 : exists s5, nth_error ss5 k = Some s5).
+  { destruct (nth_error ss5 k) eqn:E; [eauto|]. apply nth_error_None in E.
+    assert (k < length rs)%nat by (apply nth_error_Some; congruence). lia. }
+  destruct Hs5 as [s5 Hs5]. destruct (Hm _ _ Hs5) as [s' [Hs' Fs]]. rewrite Hk in Hs'. inversion Hs'; subst s'.
+  destruct (stmt_result_fields _ _ Fs) as (Fa & Fz & _ & _ & _).
+  destruct (Forall2_nth_r _ _ _ _ _ R5 Hs5) as [s4 [Hs4 R45]].
+  assert (Hpos : 0 < sz s4).
+  { destruct R45 as (_&_&_&_&_&_&_&_&_&Es&_). unfold sz. rewrite <- Es. fold (size_of_stmt s5). rewrite <- Fz.
+    rewrite Forall_forall in Hsz. rewrite (Hsz s (nth_error_In _ _ Hk)). destruct (r_bytes s); [contradiction | cbn; lia]. }
+  pose proof (assign_from_origin ss3 0 None ss4 H4 eq_refl W3 k s4 Hs4 Hpos) as Haddr.
+  rewrite Fa. unfold addr_of_stmt in *. destruct R45 as (_&_&_&_&_&_&_&Ea&_). rewrite Ea, Haddr.
+  rewrite (origin_of_rel_fix _ _ None R5). f_equal.
+  (* the sum of the sizes is the number of bytes emitted so far *)
+  rewrite <- (sum_range_rel_fix _ _ R5). eapply sum_sizes_bytes; eauto.
+Qed.
